@@ -212,6 +212,22 @@ def _driver(argv):
     n = 0
     startup = time.time() - t0
     t1 = time.time()
+    def summary():
+        return json.dumps({"sweep_cases": n, "program_cases": nprog, "calls": ctx.counters.get("calls", 0),
+                           "program_ops": ctx.counters.get("program-ops", 0), "entries": entries,
+                           "bytes_checked": stats["bytes"], "values_checked": stats["values"],
+                           "behaviour_keys": sorted(ctx.keys)[:10], "startup_s": round(startup, 1),
+                           "tskit": tskit.__file__, "_tskit": _tskit.__file__})
+
+    def checkpoint():
+        # the worker kills this process at its deadline (a loaded machine can spend minutes in valgrind's start-up alone):
+        # what was done so far must not be lost with it
+        if len(argv) > 5:
+            tmp = argv[5] + ".summary.tmp"
+            with open(tmp, "w") as f:
+                f.write(summary())
+            os.replace(tmp, argv[5] + ".summary")
+
     while time.time() - t1 < budget:
         ci = k % ncat
         case = {"gen": "sweep", "call": ci, "name": c09.CAT[ci]["name"], "rep": k // ncat, "idx": k, "seed": seed,
@@ -219,6 +235,7 @@ def _driver(argv):
         c09.run_sweep(case, ctx)
         entries.append(c09.CAT[ci]["name"])
         n += 1
+        checkpoint()
         if n % 3 == 0:
             case = {"gen": "program", "k": offset * 7919 + nprog, "idx": 10 ** 6 + offset * 7919 + nprog, "seed": seed,
                     "tier": tier, "memcheck": 1}
@@ -226,11 +243,7 @@ def _driver(argv):
             nprog += 1
         k += stride
     os.close(devnull)
-    print(json.dumps({"sweep_cases": n, "program_cases": nprog, "calls": ctx.counters.get("calls", 0),
-                      "program_ops": ctx.counters.get("program-ops", 0), "entries": entries,
-                      "bytes_checked": stats["bytes"], "values_checked": stats["values"],
-                      "behaviour_keys": sorted(ctx.keys)[:10], "startup_s": round(startup, 1),
-                      "tskit": tskit.__file__, "_tskit": _tskit.__file__}))
+    print(summary())
     return 0
 
 
@@ -290,6 +303,12 @@ def collect_memcheck(h, ctx):
     text = open(h["log"]).read() if os.path.exists(h["log"]) else ""
     prog = os.path.join(h["td"], "progress")
     last_step = open(prog).read() if os.path.exists(prog) else ""
+    partial = None
+    try:
+        with open(prog + ".summary") as f:
+            partial = json.load(f)
+    except (OSError, ValueError):
+        pass
     shutil.rmtree(h["td"], ignore_errors=True)
     summary = None
     for line in (out or "").splitlines():
@@ -298,6 +317,15 @@ def collect_memcheck(h, ctx):
                 summary = json.loads(line)
             except ValueError:
                 pass
+    if summary is None and rc is None and partial is not None and partial.get("sweep_cases", 0) > 0:
+        summary = partial  # killed at the deadline: count what it completed
+        ctx.feature("memcheck:partial-summary-after-timeout")
+    vg_oom = "Valgrind's memory management: out of memory" in text or "run out of swap space" in text
+    if summary is None and vg_oom and partial is not None and partial.get("sweep_cases", 0) > 0:
+        # valgrind itself gave up (its shadow memory for a multi-GB request did not fit under RLIMIT_AS): not a finding about
+        # tskit and not a harness failure - keep what was checked until then and name the step
+        summary = partial
+        ctx.feature("memcheck:valgrind-out-of-memory:" + re.sub(r"[^A-Za-z_./()=]+", " ", last_step)[:90])
     total, found = parse_log(text)
     ctx.count("memcheck:reports-seen", total)
     ctx.count("memcheck:reports-with-tskit-frame", len(found))
@@ -313,7 +341,7 @@ def collect_memcheck(h, ctx):
             if rc is None:
                 ctx.feature("memcheck:timed-out-before-summary:" + re.sub(r"[^A-Za-z_./]+", " ", last_step)[:80])
                 return
-            ctx.violation("HARNESS-ERROR", f"memcheck run failed rc={rc}: {(err or '')[-1200:]} {text[-800:]}")
+            ctx.violation("HARNESS-ERROR", f"memcheck run failed rc={rc} (last step: {last_step[:300]}): {(err or '')[-1200:]} {text[-800:]}")
             return
         if not os.path.realpath(summary["tskit"]).startswith(os.path.realpath(h["repo"]) + "/") or \
                 os.path.realpath(os.path.dirname(summary["_tskit"])) != os.path.realpath(h["plain"]):
